@@ -20,6 +20,9 @@ class Run:
         self.pool = Pool("vf.genworker")
         self.n = 0
         self.t0 = time.time()
+        self.cov: set = set()
+        self.cov_jobs = 0
+        self.contracts = {"engine": None, "evaluations": {}, "failures": []}
 
     def job(self, doc=None, **kw) -> dict:
         self.n += 1
@@ -30,16 +33,66 @@ class Run:
         return j
 
     def map(self, jobs, timeout=180.0, lane="default", env=None, progress=None):
+        # M-COV on a sample of the jobs (sys.monitoring line events of repository code incl. templates)
+        for idx, j in enumerate(jobs):
+            if idx % 7 == 0 and ("doc" in j or "raw_b64" in j) and not j.get("op"):
+                j["cov"] = True
+                j["want"] = list(j.get("want") or []) + ["cov"]
         rs = self.pool.map(jobs, timeout=timeout, lane=lane, env=env, progress=progress or self.prop)
         for j, r in zip(jobs, rs):
+            c = r.pop("contracts", None)
+            if c:
+                self.contracts["engine"] = c["engine"]
+                for k, v in c["evaluations"].items():
+                    self.contracts["evaluations"][k] = self.contracts["evaluations"].get(k, 0) + v
+                self.contracts["failures"] = (self.contracts["failures"] + c["failures"])[:12]
+            if j.get("cov") and isinstance(r.get("cov"), list):
+                self.cov_jobs += 1
+                self.cov.update((f, ln) for f, ln in r.pop("cov"))
             if r.get("_error"):
                 self.ev.count("harness:" + r["_error"])
             if r.get("sandbox", {}).get("_error"):
                 self.ev.count("harness:" + r["sandbox"]["_error"])
         return rs
 
+    def anchor_coverage(self) -> dict:
+        """Lines of each anchored file (properties.jsonl) executed by the sampled jobs of this run."""
+        import json as _json
+        from .common import REPO, VERIF
+        anchors = []
+        try:
+            for line in open(VERIF / "properties.jsonl"):
+                p = _json.loads(line)
+                if p["id"] == self.prop:
+                    anchors = p["anchors"]["files"]
+        except OSError:
+            return {}
+        hit_by_file: dict = {}
+        for f, ln in self.cov:
+            hit_by_file.setdefault("openapi_python_client/" + f, set()).add(ln)
+        out = {}
+        for a in anchors:
+            files = [f for f in hit_by_file if f == a or (a.endswith("/") and f.startswith(a))]
+            hits = sum(len(hit_by_file[f]) for f in files)
+            stm = None
+            fp = REPO / a
+            if a.endswith(".py") and fp.exists():
+                try:
+                    stm = len({n.lineno for n in ast.walk(ast.parse(fp.read_text())) if isinstance(n, ast.stmt)})
+                except SyntaxError:
+                    stm = None
+            out[a] = {"lines_hit": hits, "statement_lines": stm}
+        return out
+
     def finish(self) -> int:
         self.pool.close()
+        if self.contracts["engine"]:
+            self.ev.extra["contract_evaluations"] = {"engine": self.contracts["engine"], "evaluations_since_last_sample": self.contracts["evaluations"],
+                                                     "first_failures(localisation only, not a verdict)": self.contracts["failures"]}
+        if self.cov_jobs:
+            ac = self.anchor_coverage()
+            self.ev.extra["anchor_coverage"] = {"sampled_jobs": self.cov_jobs, "files": ac, "never_executed": sorted(a for a, v in ac.items() if v["lines_hit"] == 0)}
+            self.vd.inconclusive_if(bool(ac) and all(v["lines_hit"] == 0 for v in ac.values()), "none of the property's anchored files was executed by the sampled jobs")
         st = self.pool.stats
         self.ev.extra["pool"] = st
         if st["jobs"]:
